@@ -589,7 +589,7 @@ class ExprMixin:
             except Unsupported:
                 pass
             return self.lib.dynamic_attr(base, attr, st, node)
-        if k in ("set", "list", "dict", "str", "carray", "tuple", "float", "int", "opaque", "dictview", "bytes", "ctxvar", "map", "concdict"):
+        if k in ("set", "list", "dict", "str", "carray", "tuple", "float", "int", "opaque", "dictview", "bytes", "ctxvar", "map", "concdict", "dynbytes"):
             return [(st, Val(("boundmethod",), (base, attr), origin=node.value if isinstance(node, ast.Attribute) else None))]
         raise Unsupported(f"attribute .{attr} on {tstr(base.t)}", node, self.path)
 
